@@ -39,14 +39,16 @@ type Rule struct {
 	List  bool       `json:"list,omitempty"`  // value is a list (even if empty)
 }
 
-func (r Rule) ValText() string {
+func (r Rule) ValText() string { return r.valText(false) }
+
+func (r Rule) valText(quoteNames bool) string {
 	if !r.List {
 		return r.Val
 	}
 	var parts []string
 	for _, it := range r.Items {
 		if it.Set != nil {
-			parts = append(parts, "{"+rulesText(it.Set, false, false)+"}")
+			parts = append(parts, "{"+rulesText(it.Set, quoteNames, false)+"}")
 		} else {
 			parts = append(parts, it.Lit)
 		}
@@ -61,7 +63,7 @@ func rulesText(rs []Rule, quoteNames, trailingComma bool) string {
 		if quoteNames {
 			n = `"` + n + `"`
 		}
-		parts = append(parts, n+": "+r.ValText())
+		parts = append(parts, n+": "+r.valText(quoteNames))
 	}
 	s := strings.Join(parts, ", ")
 	if trailingComma && len(parts) > 0 {
